@@ -103,6 +103,16 @@ class SignalGet(FnSpec):
         return out
 
 
+    def ghost_exit(self, eng, st, kind):
+        """ghost: the per-instance binding table belongs to the binding machinery (ownership tag)"""
+        if kind != "return":
+            return
+        inst = st.env["instance"].t
+        b = bs_addr(eng.reg)
+        inner = Val.a(st.d_get(b, inst))
+        st.heap["g:owner"] = z3.If(inst != VNone, z3.Store(st.heap["g:owner"], inner, Val.pair(inst, con("own:bound-signals"))),
+                                   st.heap["g:owner"])
+
     def call_site_extra(self, F):
         # A-DESC (descriptor wiring, assumed): an instance reaches exactly one declaration per attribute name, and every
         # signal stored in the binding table was created by __get__ from that declaration - so also on re-access the
@@ -212,6 +222,30 @@ def register(reg):
                                                                z3.Select(H.g("g:owner"), Val.a(inner)) == Val.pair(k, con("own:bound-signals")))),
                          patterns=[H.d_has(b, k)])
     reg.invariants.append(("I-bs:binding-tables-are-owned", i_bs, ("d_has", "d_get", "g:owner", "alloc")))
+
+    def i_bsig(H, reg=reg):
+        """I-bsig: every signal in the binding table is an allocated bound signal that records its own (instance, attribute):
+        hence distinct (instance, attribute) pairs never share a bound signal, and the instance is referenced weakly only"""
+        k = z3.Const("k!ibg", Val)
+        tp = z3.Const("t!ibg", Val)
+        sig = bound_sig(H, reg, k, tp)
+        a_ = Val.a(sig)
+        return z3.ForAll([k, tp], z3.Implies(bound_has(H, reg, k, tp),
+                                             z3.And(Val.is_ref(sig), 0 <= a_, a_ < H.alloc, H.isset("_instance", a_),
+                                                    H.fld("_topic", a_) == tp, H.fld("_instance", a_) == Val.wref(k),
+                                                    subcls(H.fld("__class__", a_), con("Signal")))),
+                         patterns=[H.d_has(Val.a(H.d_get(bs_addr(reg), k)), tp)])
+    reg.invariants.append(("I-bsig:bound-signals-record-their-instance-and-attribute", i_bsig,
+                           ("d_has", "d_get", "fld:_topic", "fld:_instance", "set:_instance", "fld:__class__", "alloc"), {"lazy": True}))
+
+    def g_bind(old, new, reg=reg):
+        """G-bind: a binding, once made, is never changed or removed (while the instance is alive)"""
+        k = z3.Const("k!gb", Val)
+        tp = z3.Const("t!gb", Val)
+        return z3.ForAll([k, tp], z3.Implies(bound_has(old, reg, k, tp),
+                                             z3.And(bound_has(new, reg, k, tp), bound_sig(new, reg, k, tp) == bound_sig(old, reg, k, tp))),
+                         patterns=[bound_sig(new, reg, k, tp)])
+    reg.guarantees.append(("G-bind:bindings-are-permanent", g_bind, ("d_has", "d_get")))
 
     # signal declarations found in class bodies (module-level facts, DESIGN Appendix C rule 10)
     def i_decl_factory(world):
